@@ -12,6 +12,8 @@ package queues
 //@ type Queue: ghost $base (Array Int Int)
 //@ type Queue: ghost $inQ (Array Int Bool)
 //@ type Queue: guarded_by mx: readChunk, writeChunk
+//@ type Queue: atomic writeCount, readCount, closed
+//@ type PriorityQueue: atomic closed
 //@ assumption: fewer than 2^64-1 items are ever written to one Queue between two purges (writeCount does not wrap)
 
 //@ func NewQueue
